@@ -155,6 +155,12 @@ def corpus():
     out.append(bcase(hist("pack-0.92", [], [["add", b"f1", None, "a" * 63 + "\u00e9", "file", b"x\n", False]]), 0, 1))  # regression: 79-byte wrap inside a character (repaired by 6372b00)
     out.append(bcase(hist("pack-0.92", [], [["add", b"f1", None, "a" * 62 + "\u00e9", "file", b"x\n", False]]), 0, 1))  # one byte earlier: fine
     out.append(bcase(hist("2a", dirfile, [["mv", b"d1", None, "dir2"]]), 0, 1, bfmt="4"))
+    # a v4 bundle that lost its last 30 bytes: read as a stream (the default of install_revisions) the bz2 data
+    # just ends, the container is cut short and bzrformats' container reader never returns
+    # (C40-v4-truncated-bundle-hangs); without streaming bz2 reports the damage
+    for stream in (True, False):
+        out.append({"k": "btamper", "h": hist("2a", dirfile, [["mv", b"d1", None, "dir2"]]), "base": None, "tgt": 1,
+                    "bfmt": "4", "stream": stream, "pos": 0, "byte": 0, "cut": 30})
     return out
 
 
@@ -385,7 +391,8 @@ def _hist_cases(rng, tier):
             bfmt = rng.choice(["4", "0.9"])
             yield {"k": "btamper", "h": spec, "base": base, "tgt": tgt, "bfmt": bfmt, "stream": rng.random() < 0.5,
                    "pos": rng.choice([rng.randrange(10 ** 6), rng.randrange(40), 10 ** 6 - 1 - rng.randrange(40)]),
-                   "byte": rng.choice([0, 10, 32, 48, 65, 97, 255, rng.randrange(256)])}
+                   "byte": rng.choice([0, 10, 32, 48, 65, 97, 255, rng.randrange(256)]),
+                   "cut": rng.choice([0, 0, 0, 0, 0, 0, 0, 0, 30, 200])}     # sometimes a truncation instead
         for _ in range(2 if quick else 5):
             rel = [(a, b) for a in range(n) for b in range(n)
                    if H.present_ancestors(g, [a]) & H.present_ancestors(g, [b])]
@@ -794,6 +801,8 @@ def _oracle_hist(inp, obs):
     if k == "btamper":
         if "write_error" in obs:
             return None                      # judged by the bundle case of the same pair
+        if obs.get("hang"):
+            return "tampered bundle (byte %d of %d): install_revisions does not return" % (obs["where"], obs["len"])
         if obs["problem"]:
             return "tampered bundle (byte %d of %d): %s" % (obs["where"], obs["len"], obs["problem"])
         if obs["rejected"] is not None:
@@ -881,6 +890,9 @@ def finding_matches(fid, inp, obs, why):
     k = inp["k"]
     if k in ("bundle", "btamper", "merge"):
         from props import _c40_hist as H
+        if fid == "C40-v4-truncated-bundle-hangs":
+            # the stream is cut short (or emptied) without a bz2 error: the container reader spins at EOF
+            return k == "btamper" and inp["bfmt"] == "4" and bool(obs.get("hang")) and inp.get("stream", True)
         if k != "bundle" or inp["bfmt"] not in ("0.8", "0.9"):
             return False
         spec, base, tgt = inp["h"], inp["base"], inp["tgt"]
